@@ -12,10 +12,14 @@ centroid_sources`` and compared with
   EVERY pixel of the array (edges and corners: trimmed search boxes),
 * the symmetry centre of point-symmetric sources,
 * metamorphic relations (flips, transposition, positive rescaling, values
-  underneath the mask), and
+  underneath the mask),
+* the combination "mask with finite garbage underneath AND additional UNMASKED non-finite pixels in the same
+  array" (every function, the mask given as keyword, as the mask of a MaskedArray input, or split between the
+  two): same result as the clean array with every excluded pixel flagged in mask= , and
 * for ``centroid_sources`` a direct call of the centroid function on an
   independently computed cutout of every position (bit-exact), for position
-  lists of length 1-3 in every order.
+  lists of length 1-3 in every order, on a finite image and on an image with an unmasked non-finite pixel in
+  every cutout (+ garbage underneath the mask).
 """
 import itertools
 import math
@@ -28,9 +32,13 @@ from ..runner import Acc
 PROPERTY = 'C17'
 LEVEL = 'exploration'
 RULE = ('full Cartesian products: (sym) every cutout shape in {3..9}^2 x every symmetry centre on the half-pixel '
-        'lattice with >= 1 px of support on each side x {zero-filled, masked garbage incl. NaN/inf} x 4 centroid '
-        'functions; (generic) shapes x generic signed/peaked arrays x {flipud, fliplr, both, transpose, x2, x1e-3, '
-        'NaN<->mask}; (quad) shapes x every interior peak pixel x 5x5 sub-pixel vertex lattice x 3 curvature sets '
+        'lattice with >= 1 px of support on each side x {zero-filled, masked garbage incl. NaN/inf, masked garbage + a '
+        'point-symmetric pair of UNMASKED NaN/+inf pixels inside the support with the mask as keyword / as the mask of a '
+        'MaskedArray input} x 4 centroid functions; (generic) shapes x generic signed/peaked arrays x mask variant {none, '
+        'mask, NaN/inf instead of the mask, mask with finite garbage (1e6, -2e3) underneath + unmasked NaN and +inf '
+        'elsewhere} x mask delivery {mask= keyword, MaskedArray input, one pixel in each} (MaskedArray inputs: Gaussian-fit '
+        'functions only) x {flipud, fliplr, both, transpose, x2, x1e-3} and, for every variant but the canonical one, '
+        'equality with the call on the clean ndarray with every excluded pixel flagged in mask= ; (quad) shapes x every interior peak pixel x 5x5 sub-pixel vertex lattice x 3 curvature sets '
         'x fit_boxsize x mask variant x (xpeak, ypeak, search_boxsize) variant; (qsearch) centroid_quadratic on '
         'non-quadratic data: shapes x {generic noise, four sources next to the corners, point-symmetric source '
         'centred on every interior pixel} x guess (xpeak, ypeak) on EVERY pixel of the array incl. edges and corners '
@@ -41,10 +49,18 @@ RULE = ('full Cartesian products: (sym) every cutout shape in {3..9}^2 x every s
         'symmetry centre, and flips/transposition of the complete call; non-trivial = the search moved the start '
         'pixel or the search box is trimmed by the array border; (sources) every ordered list of '
         '1-3 distinct positions out of 4 (+ a repeated one) x cutout spec {box 5, box (5,7), cross footprint, even '
-        '4x6 footprint} x mask x centroid function x {error, xpeak/ypeak, xpeak/ypeak/search_boxsize} keyword. A case counts as non-trivial '
+        '4x6 footprint} x mask x centroid function x {error, xpeak/ypeak, xpeak/ypeak/search_boxsize} keyword x scene {finite '
+        'image, image with one unmasked non-finite pixel in every cutout and finite garbage underneath the mask, the same '
+        'with the mask carried by a MaskedArray image (Gaussian fits)}. A case counts as non-trivial '
         'when the rule of its clause applies (well-posedness rules are evaluated on the INPUT and stated next to '
         'each clause); for sources: the list has >= 2 positions.')
 ASSUMPTIONS = ['numpy, math.fsum, astropy.modeling fitters (TRFLSQFitter) are trusted',
+               'the masked pixels of a MaskedArray input are masked pixels in the sense of the statement for centroid_1dg / '
+               'centroid_2dg (which combine that mask with mask=); centroid_com / centroid_quadratic document data as a plain '
+               'ndarray and are not judged on MaskedArray inputs',
+               'in the scenes with non-finite pixels the reference for centroid_sources is the centroid function on the cutout '
+               'with footprint, mask AND non-finite pixels flagged in mask= and zeros underneath (bit-exact for com / quadratic, '
+               '1e-7 for the Gaussian fits: the same pixels are excluded, only the way they are announced differs)',
                'the cutout of a position is the astropy overlap_slices window [ceil(p - n/2), ceil(p - n/2) + n) '
                'clipped to the image; half-integer positions (ties of "centred") are not in the alphabet',
                'Gaussian-fit clauses are applied only to single-peaked positive inputs (rule evaluated on the input)',
@@ -81,6 +97,40 @@ def call(f, data, **kw):
         return 'ok', r
     except Exception as e:  # decided by the caller
         return 'exc', f'{type(e).__name__}: {e}'
+
+
+# ----------------------------------------------------------------------------
+# how a mask reaches a centroid function
+FORMS = ('kw', 'ma', 'ma+kw')     # mask= keyword | mask of a MaskedArray input | one masked pixel in each of the two
+# A MaskedArray input is handled (its mask combined with mask=) by the Gaussian-fit functions only; centroid_com and
+# centroid_quadratic document ``data`` as a plain ndarray and are not judged on MaskedArray inputs (on the pinned tree
+# centroid_com happens to honour the mask, centroid_quadratic does not).
+MA_FUNCS = ('1dg', '2dg')
+MA_SKIP = 'MaskedArray input: only the Gaussian-fit functions take one (data documented as ndarray for com / quadratic)'
+
+
+def split_mask(mask, form):
+    """-> (mask carried by the MaskedArray input or None, mask given as keyword or None)"""
+    if mask is None or form == 'kw':
+        return None, mask
+    if form == 'ma':
+        return mask, None
+    m1 = np.zeros(mask.shape, bool)
+    nz = np.argwhere(mask)
+    if len(nz):
+        m1[tuple(nz[0])] = True        # first masked pixel (row-major) travels with the MaskedArray, the rest as keyword
+    return m1, mask & ~m1
+
+
+def pack(d, m_ma, m_kw, form):
+    """-> (data object, keywords): a plain ndarray for form 'kw', otherwise a MaskedArray (without a mask if m_ma is None)"""
+    data = d if form == 'kw' else np.ma.array(d, mask=(np.ma.nomask if m_ma is None else m_ma))
+    return data, ({} if m_kw is None else {'mask': m_kw})
+
+
+def callp(f, d, m_ma, m_kw, form):
+    data, kw = pack(d, m_ma, m_kw, form)
+    return call(f, data, **kw)
 
 
 def rng_for(seed, *tag):
@@ -142,6 +192,9 @@ def make_sym(ny, nx, cx2, cy2, seed, peaked=True, amp=0.3):
     return s, sup
 
 
+SYM_VARIANTS = ('zero', 'masked', 'flat', 'masked+nf', 'masked+nf:ma')
+
+
 def sym_centres(ny, nx):
     return [(cx2, cy2) for cx2 in range(2, 2 * nx - 3) for cy2 in range(2, 2 * ny - 3)]
 
@@ -150,9 +203,20 @@ def check_sym(acc, case, seed, F):
     ny, nx = case['shape']
     cx2, cy2 = case['c2']
     variant = case['variant']
+    # 'masked+nf[:ma]': the masked-garbage variant with, in addition, a point-symmetric PAIR of UNMASKED non-finite
+    # pixels (NaN and +inf) inside the support -- the unmasked finite pixels still form a point-symmetric source --
+    # and the mask given as keyword resp. as the mask of a MaskedArray input
+    nf = variant.startswith('masked+nf')
+    form = 'ma' if variant.endswith(':ma') else 'kw'
     c = np.array([cx2 / 2.0, cy2 / 2.0])
     s, sup = make_sym(ny, nx, cx2, cy2, seed, peaked=(variant != 'flat'))
     whole = bool(sup.all())
+    nfpair = None
+    if nf:
+        for (y, x) in np.argwhere(sup):
+            if (cy2 - y, cx2 - x) != (y, x):
+                nfpair = ((int(y), int(x)), (int(cy2 - y), int(cx2 - x)))      # first support pixel (row-major) + its mirror
+                break
     if variant in ('zero', 'flat'):
         data, mask = s, None
     else:
@@ -195,15 +259,25 @@ def check_sym(acc, case, seed, F):
             tol = 1e-6   # fit-based: measured worst 5e-16 on the unchanged tree (start value = centre by symmetry)
         if not applies:
             continue
+        if form != 'kw' and name not in MA_FUNCS:
+            acc.skip(MA_SKIP)
+            continue
         dat = qdata if name == 'quad' else data
-        st, r = call(f, dat, **kw)
+        if nfpair is not None:
+            dat = dat.copy()
+            dat[nfpair[0]] = np.nan
+            dat[nfpair[1]] = np.inf
+        if form == 'ma':
+            kw = {k: v for k, v in kw.items() if k != 'mask'}
+        pk = (lambda a: np.ma.array(a, mask=mask)) if form == 'ma' else (lambda a: a)
+        st, r = call(f, pk(dat), **kw)
         acc.case(nontrivial=True, sample=dict(case, func=name) if acc.evaluations % 4001 == 3 else None)
         if st != 'ok':
             acc.violation('sym-raises', name, case, r, 'no exception', 'valid call raised')
             continue
         acc.outcome((name, round(float(r[0]), 6), round(float(r[1]), 6)))
         if not np.all(np.abs(r - c) <= tol):
-            acc.violation('symmetry-centre', f'{name}:{"masked" if mask is not None else "unmasked"}', case, r, c,
+            acc.violation('symmetry-centre', f'{name}:{"masked" if mask is not None else "unmasked"}' + ('+nonfinite' if nf else ''), case, r, c,
                           f'point-symmetric source about {c.tolist()}, |dev|={np.abs(r - c).max():.3g} > {tol}')
         if mask is not None:
             # values underneath the mask are irrelevant: bit-exact
@@ -211,14 +285,21 @@ def check_sym(acc, case, seed, F):
             out = np.argwhere(mask)
             for j, (y, x) in enumerate(out):
                 d2[y, x] = GARBAGE[(j + 3) % 6] if j % 2 else 0.125 * j
-            st2, r2 = call(f, d2, **kw)
+            st2, r2 = call(f, pk(d2), **kw)
             if st2 != 'ok' or not np.array_equal(r, r2, equal_nan=True):
-                acc.violation('mask-blind', name, case, r2, r, 'changing values of masked pixels changed the result')
+                acc.violation('mask-blind', name + ('+nonfinite' if nf else ''), case, r2, r, 'changing values of masked pixels changed the result')
 
 
 # ----------------------------------------------------------------------------
 # (generic) definition of com + metamorphic relations of all functions
 TRANSFORMS = ('flipud', 'fliplr', 'flipboth', 'transpose', 'scale2', 'scale1e-3')
+GEN_MASKS = ('none', 'mask', 'nan', 'mask+nf')
+
+
+def gen_variants():
+    """mask variant x how the mask arrives (a MaskedArray input without a mask for 'none' / 'nan'; nothing to split there)"""
+    return [(mvar, form) for mvar in GEN_MASKS for form in FORMS if not (mvar in ('none', 'nan') and form == 'ma+kw')]
+
 
 
 def make_generic(ny, nx, kind, seed):
@@ -277,23 +358,39 @@ def check_generic(acc, case, seed, F):
     ny, nx = case['shape']
     kind = case['kind2']
     mvar = case['mask']
-    d = make_generic(ny, nx, kind, seed)
-    mask = None
+    form = case.get('form', 'kw')
+    d0 = make_generic(ny, nx, kind, seed)
+    d = d0
+    mask = None            # pixels excluded from the calculation (by the mask and/or by being non-finite)
+    user = None            # the mask handed to the function
     if mvar != 'none':
         mask = np.zeros((ny, nx), bool)
         mask[0, nx - 1] = True
         mask[ny // 2, 0] = True
+        d = d0.copy()
         if mvar == 'nan':        # the same pixels made non-finite instead of masked
-            d = d.copy()
             d[0, nx - 1] = np.nan
             d[ny // 2, 0] = np.inf
-    kwm = {'mask': mask} if mvar == 'mask' else {}
-    eff_mask = mask if mvar != 'none' else None
+        elif mvar == 'mask':
+            user = mask
+        else:                    # 'mask+nf': finite garbage underneath the mask AND two unmasked non-finite pixels elsewhere
+            user = mask.copy()
+            d[0, nx - 1] = 1.0e6
+            d[ny // 2, 0] = -2.0e3
+            d[ny - 1, 1] = np.nan
+            d[1, nx // 2] = np.inf
+            mask[ny - 1, 1] = True
+            mask[1, nx // 2] = True
+    m_ma, m_kw = split_mask(user, form)
+    eff_mask = mask
     for name in FUNC_NAMES:
         if name in ('1dg', '2dg') and (kind != 'blob' or min(ny, nx) < 5):
             continue      # rule: Gaussian fits only on single-peaked positive inputs of >= 5x5 pixels
+        if form != 'kw' and name not in MA_FUNCS:
+            acc.skip(MA_SKIP)
+            continue
         f = F[name]
-        st, r = call(f, d, **kwm)
+        st, r = callp(f, d, m_ma, m_kw, form)
         acc.case(nontrivial=True, sample=dict(case, func=name) if acc.evaluations % 1501 == 5 else None)
         if st != 'ok':
             acc.violation('generic-raises', name, case, r, 'no exception', 'valid call raised')
@@ -302,23 +399,29 @@ def check_generic(acc, case, seed, F):
         if name == 'com':
             ref, tol = ref_com(d, eff_mask)
             if ref is not None and not np.all(np.abs(r - ref) <= tol):
-                acc.violation('com-definition', f'mask={mvar}', case, r, ref,
+                acc.violation('com-definition', f'mask={mvar}' + ('' if form == 'kw' else f':{form}'), case, r, ref,
                               f'sum(x d)/sum(d) over unmasked finite pixels; tol {tol.tolist()}')
-        if mvar == 'nan':
-            # non-finite pixels are ignored like masked ones: same result as masking them
-            d0 = make_generic(ny, nx, kind, seed)
-            st3, r3 = call(f, d0, mask=mask)
-            # com: identical arithmetic (zero filled) -> bit-exact; fits: the same pixels are excluded -> same fit
+        if not (mvar == 'none' and form == 'kw') and not (mvar == 'mask' and form == 'kw'):
+            # canonical call: the clean array as a plain ndarray with EVERY excluded pixel (masked by the keyword, masked
+            # by the MaskedArray input, non-finite) flagged in mask= .  Non-finite pixels are ignored like masked ones,
+            # values underneath a mask are ignored, and it does not matter how the mask arrives.
+            st3, r3 = call(f, d0, **({} if mask is None else {'mask': mask}))
+            # com / quad: identical arithmetic (zero / NaN filled) -> bit-exact; fits: the same pixels are excluded -> same fit
+            # (measured on the unchanged tree, seeds 0-2, all shapes, every variant x delivery: 0.0 for 1dg and 2dg; the
+            # flip / rescaling relations below on the 'mask+nf' variant: flips 4.7e-14, rescaling 5.9e-7 (2dg) -- within
+            # the bounds calibrated for the other variants)
             if st3 != 'ok' or not np.allclose(r, r3, rtol=0, atol=0 if name in ('com', 'quad') else 1e-7, equal_nan=True):
-                acc.violation('nonfinite-as-masked', name, case, r, r3, 'non-finite pixels are not treated like masked pixels')
+                clause = {'nan': 'nonfinite-as-masked', 'mask+nf': 'masked-and-nonfinite-as-masked'}.get(mvar, 'maskedarray-as-mask-keyword')
+                acc.violation(clause, name + ('' if form == 'kw' else f':{form}'), case, r, r3,
+                              'differs from the same call with every masked / non-finite pixel flagged in mask= (clean values underneath)')
         # metamorphic relations
         if name == 'quad' and not unique_max(d, eff_mask):
             acc.skip('quad: maximum not unique (argmax tie-break is not flip covariant)')
             continue
         for tname in TRANSFORMS:
             d2 = transform(tname, d)
-            kw2 = {'mask': transform(tname, mask)} if 'mask' in kwm else {}
-            st2, r2 = call(f, d2, **kw2)
+            st2, r2 = callp(f, d2, None if m_ma is None else transform(tname, m_ma),
+                            None if m_kw is None else transform(tname, m_kw), form)
             want = map_xy(tname, r, ny, nx)
             if name == 'com':
                 ref, tol = ref_com(d, eff_mask)
@@ -685,6 +788,25 @@ def scene(seed):
     return img, err, mask
 
 
+# scene variants: 'plain' (finite image) | 'nf' (one UNMASKED non-finite pixel inside every position's cutout and, when a
+# mask is given, finite garbage underneath the mask) | 'nf:ma' (the same with the mask carried by a MaskedArray image
+# instead of mask=)
+SCENES = ('plain', 'nf', 'nf:ma')
+NF_PIXELS = (((3, 4), np.nan), ((12, 7), np.inf), ((2, 2), np.nan), ((7, 6), -np.inf), ((9, 11), np.nan))    # ((x, y), value)
+
+
+def scene_variant(seed, scn, use_mask):
+    img, err, mask = scene(seed)
+    if scn != 'plain':
+        img = img.copy()
+        if use_mask:
+            for j, (y, x) in enumerate(np.argwhere(mask)):
+                img[y, x] = (1.0e4, -2.0e3)[j % 2]
+        for (x, y), v in NF_PIXELS:
+            img[y, x] = v
+    return img, err, mask
+
+
 def footprint_of(spec):
     if spec == 'box5':
         return {'box_size': 5}, np.ones((5, 5), bool)
@@ -708,8 +830,9 @@ def window(p, n, N):
     return clo, chi, clo - lo, chi - lo
 
 
-def expected_position(F, fname, img, err, mask, fp, pos, use_mask, extra):
-    """Direct call of the centroid function on this position's cutout."""
+def expected_position(F, fname, img, err, mask, fp, pos, use_mask, extra, scn='plain'):
+    """Direct call of the centroid function on this position's cutout.  In the 'nf' scenes the reference call gets
+    every excluded pixel (footprint, mask, non-finite) flagged in mask= and zeros underneath."""
     x, y = pos
     y0, y1, sy0, sy1 = window(y, fp.shape[0], img.shape[0])
     x0, x1, sx0, sx1 = window(x, fp.shape[1], img.shape[1])
@@ -717,6 +840,9 @@ def expected_position(F, fname, img, err, mask, fp, pos, use_mask, extra):
     mcut = ~fp[sy0:sy1, sx0:sx1]
     if use_mask:
         mcut = mcut | mask[y0:y1, x0:x1]
+    if scn != 'plain':
+        mcut = mcut | ~np.isfinite(cut)
+        cut = np.where(mcut, 0.0, cut)
     kw = {'mask': mcut}
     if extra == 'error' and fname in ('1dg', '2dg'):
         kw['error'] = err[y0:y1, x0:x1]
@@ -749,10 +875,14 @@ def position_lists(tier='quick'):
 def check_sources(acc, case, seed, F, cache=None):
     from photutils.centroids import centroid_sources
     fname, spec, use_mask, extra, plist = case['func'], case['spec'], case['mask'], case['extra'], case['positions']
-    img, err, mask = scene(seed)
+    scn = case.get('scene', 'plain')
+    img, err, mask = scene_variant(seed, scn, use_mask)
     kwbox, fp = footprint_of(spec)
     kw = dict(kwbox)
-    if use_mask:
+    image = img.copy()
+    if use_mask and scn == 'nf:ma':
+        image = np.ma.array(image, mask=mask.copy())
+    elif use_mask:
         kw['mask'] = mask.copy()
     if extra == 'error':
         kw['error'] = err.copy()
@@ -763,9 +893,9 @@ def check_sources(acc, case, seed, F, cache=None):
     cache = {} if cache is None else cache
     want = []
     for i in plist:
-        k = (fname, spec, use_mask, extra, i)
+        k = (fname, spec, use_mask, extra, i, scn)
         if k not in cache:
-            cache[k] = expected_position(F, fname, img, err, mask, fp, POSITIONS_THOROUGH[i], use_mask, extra)
+            cache[k] = expected_position(F, fname, img, err, mask, fp, POSITIONS_THOROUGH[i], use_mask, extra, scn)
         want.append(cache[k])
     want = np.array(want)
     xs = [POSITIONS_THOROUGH[i][0] for i in plist]
@@ -774,7 +904,7 @@ def check_sources(acc, case, seed, F, cache=None):
     try:
         with warnings.catch_warnings():
             warnings.simplefilter('ignore')
-            gx, gy = centroid_sources(img.copy(), xs, ys, centroid_func=F[fname], **kw)
+            gx, gy = centroid_sources(image, xs, ys, centroid_func=F[fname], **kw)
     except Exception as e:
         acc.violation('sources-raises', f'{fname}:extra={extra}', case, f'{type(e).__name__}: {e}', want.tolist())
         return
@@ -783,15 +913,19 @@ def check_sources(acc, case, seed, F, cache=None):
     if got.shape != want.shape:
         acc.violation('sources-shape', fname, case, got.shape, want.shape)
         return
-    bad = [k for k in range(len(plist)) if not np.array_equal(got[k], want[k], equal_nan=True)]
+    # plain scene: the same arithmetic on the same cutout -> bit-exact.  'nf' scenes: the reference call excludes the same
+    # pixels, but explicitly (mask=, zeros underneath) instead of automatically: bit-exact for com / quadratic (zero / NaN
+    # filled sums, measured 0), fit tolerance 1e-7 for the Gaussian fits (same pixels excluded -> same fit; measured 0)
+    atol = 1e-7 if (scn != 'plain' and fname in ('1dg', '2dg')) else 0.0
+    bad = [k for k in range(len(plist)) if not np.allclose(got[k], want[k], rtol=0, atol=atol, equal_nan=True)]
     if bad:
         k = bad[0]
-        where = 'first-position' if k == 0 else 'later-position'
+        where = ('first-position' if k == 0 else 'later-position') + ('' if scn == 'plain' else f':scene={scn}')
         kwname = {'error': 'error' if fname in ('1dg', '2dg') else 'error(ignored)',
                   'peak': 'xpeak/ypeak' if fname == 'quad' else 'xpeak/ypeak(ignored)',
                   'peaksearch': 'xpeak/ypeak/search_boxsize', 'none': 'none'}[extra]
         acc.violation('sources-per-position', f'kw={kwname}:{where}', case, got.tolist(), want.tolist(),
-                      f'position #{k} of {len(plist)} differs from {fname} on its own cutout (bit-exact comparison)')
+                      f'position #{k} of {len(plist)} differs from {fname} on its own cutout (atol {atol})')
 
 
 # ----------------------------------------------------------------------------
@@ -834,6 +968,15 @@ def source_configs():
                     yield fname, spec, use_mask, extra
 
 
+def source_scene_configs():
+    """the same product for the scenes with unmasked non-finite pixels ('nf:ma' needs a mask to carry)"""
+    for scn in SCENES[1:]:
+        for fname, spec, use_mask, extra in source_configs():
+            if scn == 'nf:ma' and not (use_mask and fname in MA_FUNCS):
+                continue
+            yield fname, spec, use_mask, extra, scn
+
+
 def plan(tier, seed):
     units = []
     for (ny, nx) in shapes(tier):
@@ -851,6 +994,8 @@ def plan(tier, seed):
         ds = qsearch_data(tier, ny, nx)
         for j in range(0, len(ds), 3):
             units.append({'kind': 'qsearch', 'shape': [ny, nx], 'data': ds[j:j + 3]})
+    for cfg in source_scene_configs():
+        units.append({'kind': 'sources', 'cfg': list(cfg)})
     return units
 
 
@@ -861,13 +1006,15 @@ def run_unit(unit, tier, seed):
     if kind == 'sym':
         ny, nx = unit['shape']
         for (cx2, cy2) in sym_centres(ny, nx):
-            for variant in ('zero', 'masked', 'flat'):
+            for variant in SYM_VARIANTS:
                 check_sym(acc, {'kind': 'sym', 'shape': [ny, nx], 'c2': [cx2, cy2], 'variant': variant}, seed, F)
     elif kind == 'generic':
         for (ny, nx) in unit['shapes']:
             for k in ('signed', 'positive', 'blob'):
-                for mvar in ('none', 'mask', 'nan'):
-                    check_generic(acc, {'kind': 'generic', 'shape': [ny, nx], 'kind2': k, 'mask': mvar}, seed, F)
+                for mvar, form in gen_variants():
+                    if form != 'kw' and (k != 'blob' or min(ny, nx) < 5):
+                        continue    # MaskedArray inputs: judged for the Gaussian fits only, which apply to blobs >= 5x5
+                    check_generic(acc, {'kind': 'generic', 'shape': [ny, nx], 'kind2': k, 'mask': mvar, 'form': form}, seed, F)
     elif kind == 'quad':
         for i, case in enumerate(quad_cases(tier)):
             if i % unit['nshards'] == unit['shard']:
@@ -878,11 +1025,12 @@ def run_unit(unit, tier, seed):
             for case in qsearch_cases(tier, ny, nx, dspec):
                 check_qsearch(acc, case, seed, F)
     else:
-        fname, spec, use_mask, extra = unit['cfg']
+        fname, spec, use_mask, extra = unit['cfg'][:4]
+        scn = unit['cfg'][4] if len(unit['cfg']) > 4 else 'plain'
         cache = {}
         for plist in position_lists(tier):
             check_sources(acc, {'kind': 'sources', 'func': fname, 'spec': spec, 'mask': use_mask, 'extra': extra,
-                                'positions': plist}, seed, F, cache)
+                                'scene': scn, 'positions': plist}, seed, F, cache)
     return acc
 
 
@@ -906,10 +1054,16 @@ def replay(case, seed):
 def describe(tier, seed):
     return {'alphabet': {
         'sym': {'shapes': '{3..9}^2 (49)', 'centres': 'half-pixel lattice, 1 <= c <= n-2',
-                'variants': ['zero', 'masked garbage (NaN, inf, -1e300, ...)', 'flat (com only)'],
+                'variants': ['zero', 'masked garbage (NaN, inf, -1e300, ...)', 'flat (com only)',
+                             'masked garbage + point-symmetric pair of unmasked NaN / +inf pixels (first support pixel and its mirror), mask=',
+                             'the same with the mask carried by a MaskedArray input (1dg, 2dg)'],
                 'functions': list(FUNC_NAMES)},
         'generic': {'shapes': [list(s) for s in gen_shapes(tier)], 'kinds': ['signed', 'positive', 'blob'],
-                    'mask': ['none', 'mask', 'nan instead of mask'], 'transforms': list(TRANSFORMS)},
+                    'mask': ['none', 'mask', 'nan instead of mask',
+                             'mask+nf: mask over finite garbage (1e6, -2e3) + unmasked NaN at (ny-1, 1) and +inf at (1, nx//2)'],
+                    'mask delivery': list(FORMS) + ['(MaskedArray forms: blob arrays >= 5x5, functions 1dg / 2dg)'],
+                    'variants': [list(v) for v in gen_variants()],
+                    'transforms': list(TRANSFORMS)},
         'quad': {'shapes': QSHAPES_THOROUGH if tier == 'thorough' else QSHAPES_QUICK, 'frac': list(FRACS),
                  'curvatures (cxx, cyy, cxy)': [list(c) for c in CURV], 'fit_boxsize': [3, 5, [3, 5]],
                  'mask': list(QMASKS), 'xpeak/ypeak': list(PEAKS)},
@@ -925,5 +1079,7 @@ def describe(tier, seed):
                     'positions (x, y)': [list(p) for p in (POSITIONS_THOROUGH if tier == 'thorough' else POSITIONS)],
                     'lists': ('all ordered lists of 1-4 distinct positions out of 5 (205)' if tier == 'thorough' else
                               'all ordered lists of 1-3 distinct positions out of 4 (40)') + ' + [0,0] + [1,0,1]',
+                    'scenes': list(SCENES), 'non-finite pixels ((x, y), value)': [[list(p), str(v)] for p, v in NF_PIXELS],
+                    'garbage underneath the mask (nf scenes, mask given)': [1.0e4, -2.0e3],
                     'cutout': list(SPECS), 'mask': [False, True], 'extra': ['none', 'error', 'xpeak/ypeak', 'xpeak/ypeak/search_boxsize=3 (quad)'],
                     'functions': list(FUNC_NAMES)}}}
